@@ -185,6 +185,12 @@ def verdict(rec, case):
         obj = [x for x in shadow.keep if id(x) == cid][0]
         if len(obj) > len(items):
             grew = True
+    if mode == "query":
+        # an optional query never replaces what the document held ("every node that existed before is
+        # unchanged"), whether or not it creates anything
+        r = replaced_child(shadow)
+        if r is not None:
+            return "the optional query replaced a pre-existing node (%s)" % r
     if not grew:
         # nothing was created: a plain set / query on existing nodes (C03 / C09a) - but a set must still
         # make the path resolve to the value
@@ -246,8 +252,86 @@ def verdict(rec, case):
                     break
             if want is None or len(obj) != want + 1:
                 return "a sequence was not padded exactly up to the requested index"
+    v = created_tail_ok(rec)
+    if v is not None:
+        return v
     if mode == "set":
         return resolves(rec, case)
+    return None
+
+
+def replaced_child(shadow):
+    """a child place of a pre-existing container that now holds another object (mappings, sequences)"""
+    for cid, (kind, items) in shadow.kids.items():
+        obj = [x for x in shadow.keep if id(x) == cid][0]
+        if kind == "M":
+            for (k0, v0), (k1, v1) in zip(items, list(obj.items())):
+                if v0 is not v1:
+                    return "under key %r" % (k0,)
+        elif kind == "S":
+            for j, (v0, v1) in enumerate(zip(items, list(obj))):
+                if v0 is not v1:
+                    return "element %d" % j
+    return None
+
+
+def _is_cont(x):
+    return isinstance(x, (dict, list)) or mutgen.is_set(x)
+
+
+def created_tail_ok(rec):
+    """Exactly the missing tail was created: walking the path in the new document, every sequence in which the
+    requested element did not exist before ends exactly at the requested index; the elements put in front of
+    it (the padding) did NOT receive the tail - each is an empty container or a scalar -; and every container
+    that was created is a fresh object of its own (not one the document held, not one object sitting at
+    several places: padding elements and the requested element are distinct)."""
+    from yamlpath.enums import PathSegmentTypes
+    shadow, p = rec["shadow"], rec["p"]
+    old_ids = set(shadow.kids.keys())
+    # (1) every created container sits at one place
+    seen = {}
+    stack = [p.data]
+    while stack:
+        x = stack.pop()
+        if not _is_cont(x):
+            continue
+        seen[id(x)] = seen.get(id(x), 0) + 1
+        if seen[id(x)] > 1:
+            if id(x) not in old_ids:
+                return "one created container object sits at several places of the document (shared padding / tail)"
+            continue
+        if isinstance(x, dict):
+            stack.extend(x.values())
+        elif isinstance(x, list):
+            stack.extend(x)
+    # (2) along the path
+    cur = p.data
+    for (t, a) in rec["yp"].escaped:
+        if isinstance(cur, list):
+            try:
+                idx = a if isinstance(a, int) else int(a)
+            except (TypeError, ValueError):
+                return None
+            ent = shadow.kids.get(id(cur))
+            old_len = len(ent[1]) if ent is not None else 0
+            if idx < 0:
+                idx += len(cur)
+            if idx >= old_len:
+                if len(cur) != idx + 1:
+                    return "a sequence on the path was not padded exactly up to the requested index"
+                for e in cur[old_len:idx]:
+                    if _is_cont(e) and len(e) > 0:
+                        return ("a padding element in front of the requested index is not empty (it received "
+                                "the tail that only the requested element should get)")
+            if not 0 <= idx < len(cur):
+                return None
+            cur = cur[idx]
+        elif isinstance(cur, dict):
+            if t is not PathSegmentTypes.KEY or a not in cur:
+                return None
+            cur = cur[a]
+        else:
+            return None
     return None
 
 
@@ -338,12 +422,23 @@ def _prefix_kind(case):
         return "?"
 
 
+def _verdict(case):
+    rec = run_case(case)
+    return (rec.get("verdict") or "") if rec["kind"] == "run" else ""
+
+
 def _null_prefix(case, obs):
-    return _prefix_kind(case) == "null"
+    """F10b: a set_value whose existing prefix ends at a null overwrites that null; what fails is that the
+    requested path does not resolve afterwards (an optional QUERY through a null yields the null and changes
+    nothing: a query that replaces the null is not this finding)"""
+    return _prefix_kind(case) == "null" and case[4] == "set" and _verdict(case).startswith("after the set the path")
 
 
 def _set_prefix(case, obs):
-    return _prefix_kind(case) == "set" and case[4] == "set"
+    """F25: set_value below a set replaces the whole set by the value"""
+    v = _verdict(case)
+    return _prefix_kind(case) == "set" and case[4] == "set" and (
+        v.startswith("after the set the path") or v.startswith("a pre-existing node was replaced"))
 
 
 FINDING_PREDS = {"null_in_prefix": _null_prefix, "set_member_created_by_set_value": _set_prefix}
@@ -358,6 +453,12 @@ CORPUS = [
     ("{a: null}", "a.b.c", "v", "DEFAULT", "set"),
     ("{a: [1]}", "a[2][1].k", 5, "INT", "query"),
     ("[]", "[0]", None, "DEFAULT", "set"),
+    ("{hosts: [{name: alpha}]}", "/hosts[3]/name", "delta", "DEFAULT", "set"),
+    ("{hosts: [{name: alpha}]}", "/hosts[3]/name", "delta", "DEFAULT", "query"),
+    ("[[1]]", "[0][2][1]", "v", "DEFAULT", "query"),
+    ("{a: null}", "a", "v", "DEFAULT", "query"),
+    ("{a: {b: null}}", "a.b", "v", "DEFAULT", "query"),
+    ("[{a: null}]", "[0].a", 5, "DEFAULT", "query"),
 ]
 
 
